@@ -394,6 +394,7 @@ pub struct RunResult {
     pub max_bin: usize,
     pub tree_bins_seen: u64,
     pub resizes_seen: u64,
+    pub promise_checks: u64,
 }
 
 type Oracle = BTreeMap<u32, (u32, u64, u32)>; // key -> (key origin, payload, value origin)
@@ -959,6 +960,11 @@ pub fn run_case_on<T: Target>(case: &Case, pin: bool) -> RunResult {
     // per slot: the statistics of the previous snapshot (None after the slot is (re)created)
     let mut last: Vec<Option<SnapStats>> = vec![None, None, None, None];
     let mut prev_op: Option<&Op> = None;
+    // per slot: the room promised by `with_capacity(c)` / `reserve(a)`: (table length when the
+    // call returned, entry count up to which that table has to do, which call)
+    // the first operation of this case whose closure / predicate panicked (C18)
+    let mut panicked_before: Option<String> = None;
+    let mut promise: Vec<Option<(usize, isize, String)>> = vec![None, None, None, None];
     for (opi, op) in case.ops.iter().enumerate() {
         let mut expect: Option<String> = None;
         let outcome = catch_unwind(AssertUnwindSafe(|| -> String {
@@ -976,6 +982,16 @@ pub fn run_case_on<T: Target>(case: &Case, pin: bool) -> RunResult {
                     last[*slot] = None;
                     oracles[*slot].clear();
                     cur = *slot;
+                    promise[cur] = None;
+                    if let Some(m) = &slots[cur] {
+                        let (_, _, st) = m.snap();
+                        if *cap == 0 && st.len != 0 {
+                            res.failures.push(format!("[cap] case {} op {}: with_capacity(0) allocated a table of {} bins", case.id, opi, st.len));
+                        }
+                        if *cap > 0 && *cap < (1 << 29) {
+                            promise[cur] = Some((st.len, *cap as isize, format!("with_capacity({})", cap)));
+                        }
+                    }
                     "ok".into()
                 }
                 Op::Use(s) => {
@@ -1100,6 +1116,8 @@ pub fn run_case_on<T: Target>(case: &Case, pin: bool) -> RunResult {
                 Op::Reserve(n) => {
                     let m = m!();
                     m.reserve(pin, *n);
+                    let (_, _, st) = m.snap();
+                    promise[cur] = Some((st.len, st.count + *n as isize, format!("reserve({}) at {} entries", n, st.count)));
                     "ok".into()
                 }
                 Op::Len => {
@@ -1137,6 +1155,22 @@ pub fn run_case_on<T: Target>(case: &Case, pin: bool) -> RunResult {
                     }
                     res.max_bin = res.max_bin.max(st.max_bin);
                     res.tree_bins_seen += st.tree_bins as u64;
+                    if let (Some((plen, limit, what)), Some(p)) = (promise[cur].clone(), last[cur]) {
+                        // "holds that many entries without growing its table": while the count is
+                        // within the promise, only an overfull bin in a small table may grow it
+                        let overfull = p.len < 64 && p.max_bin >= 8;
+                        if st.len > plen && st.count <= limit && !overfull && matches!(prev_op, Some(Op::Ins(_)) | Some(Op::TryIns(_))) {
+                            res.failures.push(format!(
+                                "[cap] case {} op {}: {} left a table of {} bins that had to hold {} entries, but the insert `{}` that brought the count to {} grew it to {} bins (largest bin before: {})",
+                                case.id, opi, what, plen, limit, prev_op.map(|o| o.line(case)).unwrap_or_default(), st.count, st.len, p.max_bin
+                            ));
+                        }
+                        if st.len > plen || st.count > limit {
+                            promise[cur] = None;
+                        } else {
+                            res.promise_checks += 1;
+                        }
+                    }
                     if let Some(p) = last[cur] {
                         if p.len != 0 && st.len > p.len {
                             res.resizes_seen += 1;
@@ -1217,13 +1251,14 @@ pub fn run_case_on<T: Target>(case: &Case, pin: bool) -> RunResult {
         if let Some(e) = expect {
             if e != line {
                 res.failures.push(format!(
-                    "[answer:{}] case {} op {} `{}`: implementation answered `{}`, reference answered `{}`",
+                    "[answer:{}] case {} op {} `{}`: implementation answered `{}`, reference answered `{}`{}",
                     op.line(case).split(' ').next().unwrap_or(""),
                     case.id,
                     opi,
                     op.line(case),
                     line,
-                    e
+                    e,
+                    panicked_before.as_ref().map(|p| format!(" (after a panic in op {})", p)).unwrap_or_default()
                 ));
             }
         } else if let (Op::Retain { pred, panic_at: Some(_), .. }, "ok") = (op, line.as_str()) {
@@ -1255,6 +1290,9 @@ pub fn run_case_on<T: Target>(case: &Case, pin: bool) -> RunResult {
                     }
                 }
             }
+        }
+        if line == "panic" && panicked_before.is_none() {
+            panicked_before = Some(format!("{} `{}`", opi, op.line(case)));
         }
         res.lines.push(line);
         if !matches!(op, Op::Snap) {
